@@ -407,8 +407,6 @@ pub fn cmd_eval(cmd: &Value) -> Value {
 		if want_events {
 			all_events = events_json(jrsonnet_evaluator::verif::take(), &dir);
 		}
-		// break the settings -> ext var cycle candidates explicitly, as the CLI does by exiting
-		ctx_init.settings_mut().ext_vars.clear();
 	}
 	let mut out = if cmd.get("steps").is_some() {
 		json!({"k":"seq","results":results})
